@@ -300,6 +300,8 @@ func runScenario(t *testing.T, rec *sim.Recorder, sc Scenario) {
 						n--
 						if n > 0 {
 							c.KeepControl()
+						} else {
+							c.DropControl() // KeepControl is sticky: without this the function would stay forever
 						}
 						return nil, errors.New("injected connection kill"), true
 					})
@@ -312,6 +314,8 @@ func runScenario(t *testing.T, rec *sim.Recorder, sc Scenario) {
 						n--
 						if n > 0 {
 							c.KeepControl()
+						} else {
+							c.DropControl() // KeepControl is sticky: without this the function would stay forever
 						}
 						req := kreq.(*kmsg.ProduceRequest)
 						resp := req.ResponseKind().(*kmsg.ProduceResponse)
